@@ -195,6 +195,9 @@ class QModuleMixin(ABC):
         qmodule = cls.qcreate(module, weights, activations, optimizer)
         if qmodule is None:
             return None
+        if module.weight is None:
+            # Module without parameters (e.g. LayerNorm without elementwise affine): nothing to copy
+            return qmodule
         with torch.no_grad():
             qmodule.weight.copy_(module.weight)
             if module.bias is not None:
